@@ -21,7 +21,8 @@ EXPLANATION = (
     'self-pair block by `not crossval`, and the wrapper sets crossval exactly when a fold descriptor is in force; (FWD) '
     'ensure_double wraps every measurement array, the distance is self_i + self_j - 2 cross, labels and values use one '
     'get_unique_inverse result. The compiled .so cannot be rebuilt here (Cython is not installed), so defects in the .pyx '
-    'are recorded as known findings. Numeric agreement with calc_rdm is NOT decided.')
+    'are recorded as known findings. Numeric agreement with calc_rdm is NOT decided.'
+    ' Also: (MASK-WEIGHT) self similarities are indexed per pair, not spread by dense indicator products (NaN of one condition stays with its pairs); the distance formula is recognised in product and in indexed form.')
 ASSUMPTIONS = ['the lowering in sa/pyx.py preserves the statement structure of the .pyx (fails closed outside its subset)',
                'the shipped .so was built from this .pyx']
 FLOOR = 45
